@@ -249,6 +249,9 @@ def finish(res, tier, seed, level, rule, evaluations, distinct, coverage_extra=N
     mine = [v for v in res.violations if v.get("prop") == prop]
     other = [v for v in res.violations if v.get("prop") != prop]
     os.makedirs(os.path.join(REPLAY, prop), exist_ok=True)
+    for old_f in os.listdir(os.path.join(REPLAY, prop)):
+        if old_f.endswith(".json"):
+            os.unlink(os.path.join(REPLAY, prop, old_f))
     by_sig = {}
     for v in mine:
         by_sig.setdefault(v["sig"], []).append(v)
